@@ -405,13 +405,19 @@ func CheckK(prop string, witnesses []string) func(r *Report) {
 	return func(r *Report) {
 		r.Rule = "breadth-first search over operation histories (enc/dec by long-lived and per-request sessions of two processes, clock ticks {61,601,661,1201,3539,3601}s, out-of-band revocation of the latest IK/SK, restart, session close) on the real SDK under the virtual clock; state = canonical dump of the real object graph + metastore + record catalogue; distinct_nontrivial = distinct states reached by a history that contains at least one encrypt"
 		plan := kPlan(r.Thorough())
+		// the big search gets at most 60% of what is left of the check's wall-clock budget: the targeted parts that run after
+		// it (fault spaces, timelines, schedules, real-store runs) must never be starved by it on a loaded machine
+		kDeadline := r.Deadline
+		if !kDeadline.IsZero() {
+			kDeadline = time.Now().Add(time.Until(r.Deadline) * 6 / 10)
+		}
 		for _, cfg := range plan {
-			if !r.TimeLeft() {
+			if !kDeadline.IsZero() && !time.Now().Before(kDeadline) {
 				r.Exhaustive = false
-				r.Caps = append(r.Caps, cfg.Name+": not started (time budget)")
+				r.Caps = append(r.Caps, cfg.Name+": not started (time budget of the history search)")
 				continue
 			}
-			kr := kBFS(cfg, prop, numWorkers(), r.Deadline)
+			kr := kBFS(cfg, prop, numWorkers(), kDeadline)
 			r.AddK(kr, witnesses)
 		}
 		if prop == "C01" {
